@@ -252,7 +252,14 @@ func refBinary(op string, a, b Val) Exp {
 			return expV(vInt(a.I ^ b.I))
 		}
 	case "<<", ">>":
-		if ii && b.I >= 0 && b.I <= 63 {
+		if ii && b.I >= 0 {
+			if b.I > 63 {
+				// at or over the width: << shifts everything out, >> is arithmetic (sign fill)
+				if op == ">>" && a.I < 0 {
+					return expV(vInt(-1))
+				}
+				return expV(vInt(0))
+			}
 			if op == "<<" {
 				return expV(vInt(a.I << uint(b.I)))
 			}
@@ -361,6 +368,94 @@ func refUnary(op string, a Val) Exp {
 		}
 		if a.K == "float" {
 			return expV(vFloat(-a.Fl()))
+		}
+	}
+	return undefined()
+}
+
+// ---------------------------------------------------------------------------------
+// nested unary operators: every sequence of two and three of ! ~ - (outermost first)
+
+type unaryChain struct {
+	Name string   // key spelling, e.g. "!!", "--" (= - -$a), "~-"
+	Ops  []string // outermost first, elements of unaryOps
+}
+
+var unaryChains = func() []unaryChain {
+	var out []unaryChain
+	sym := map[string]string{"!": "!", "~": "~", "neg": "-"}
+	var rec func(prefix []string, n int)
+	rec = func(prefix []string, n int) {
+		if n == 0 {
+			name := ""
+			for _, o := range prefix {
+				name += sym[o]
+			}
+			out = append(out, unaryChain{name, append([]string{}, prefix...)})
+			return
+		}
+		for _, o := range unaryOps {
+			rec(append(prefix, o), n-1)
+		}
+	}
+	rec(nil, 2)
+	rec(nil, 3)
+	return out
+}()
+
+// chainSrc spells the chain applied to operand text x; parens=true wraps every inner application.
+func chainSrc(c unaryChain, x string, parens bool) string {
+	s := x
+	for i := len(c.Ops) - 1; i >= 0; i-- {
+		o := opSrc(c.Ops[i])
+		if parens && i != len(c.Ops)-1 {
+			s = o + "(" + s + ")"
+		} else if o == "-" && len(s) > 0 && s[0] == '-' {
+			s = o + " " + s // "--" would be a decrement
+		} else {
+			s = o + s
+		}
+	}
+	return s
+}
+
+// chainStaged spells the same applications one statement at a time ($r holds the result).
+func chainStaged(c unaryChain, x string) string {
+	s := "$r = " + opSrc(c.Ops[len(c.Ops)-1]) + x + ";"
+	for i := len(c.Ops) - 2; i >= 0; i-- {
+		s += "\n$r = " + opSrc(c.Ops[i]) + "$r;"
+	}
+	return s
+}
+
+// refUnaryChain composes the reference; every application coerces its operand first, so a
+// doubled operator is not the identity (!!5 is true, not 5).
+func refUnaryChain(c unaryChain, a Val) Exp {
+	v := a
+	for i := len(c.Ops) - 1; i >= 0; i-- {
+		if !v.IsScalar() {
+			break
+		}
+		var e Exp
+		if c.Ops[i] == "!" {
+			t, ok := truthy(v)
+			if !ok {
+				e = undefined()
+			} else {
+				e = expV(vBool(!t))
+			}
+		} else {
+			e = refUnary(c.Ops[i], v)
+		}
+		if !e.Def || e.KindOnly || e.Throw {
+			if i == 0 && c.Ops[0] == "!" {
+				return expKind("bool") // operand known ("0", NaN), only its truthiness is open
+			}
+			return undefined()
+		}
+		v = e.V
+		if i == 0 {
+			return expV(v)
 		}
 	}
 	return undefined()
